@@ -507,6 +507,29 @@ func genScenarios(thorough bool) []Scenario {
 		{},
 		{{Kind: "add", Peer: "a", Slot: 1}},
 		{{Kind: "add", Peer: "a", Slot: 1}, {Kind: "add", Peer: "b", Slot: 2}},
+		// a peer whose socket write fails (its writer gives up; the handler has not removed it yet)
+		{{Kind: "add", Peer: "a", Slot: 1, Fail: true}, {Kind: "add", Peer: "b", Slot: 2}},
+	}
+	if thorough {
+		setups = append(setups, []Op{{Kind: "add", Peer: "a", Slot: 1, Fail: true}})
+	}
+	failing := func(setup []Op) bool {
+		for _, o := range setup {
+			if o.Fail {
+				return true
+			}
+		}
+		return false
+	}
+	sends := func(ts ...[]Op) bool {
+		for _, t := range ts {
+			for _, o := range t {
+				if o.Kind == "bcast" || o.Kind == "bcastx" || o.Kind == "sendto" {
+					return true
+				}
+			}
+		}
+		return false
 	}
 	// alphabet of thread operations given the setup
 	alpha := func(setup []Op, freshSlot int) []Op {
@@ -567,6 +590,9 @@ func genScenarios(thorough bool) []Scenario {
 				if !interesting(a, b) {
 					continue
 				}
+				if failing(setup) && !sends(a, b) {
+					continue // a failing writer only matters when something is sent to it
+				}
 				if !thorough && len(a) == 2 && len(b) == 2 && !(allMut(a) && allMut(b)) {
 					continue // reduced set: 2x2 only for mutator-only threads
 				}
@@ -579,6 +605,9 @@ func genScenarios(thorough bool) []Scenario {
 			for _, y := range a2 {
 				for _, z := range a3 {
 					if !interesting([]Op{x}, []Op{y}, []Op{z}) {
+						continue
+					}
+					if failing(setup) && !sends([]Op{x}, []Op{y}, []Op{z}) {
 						continue
 					}
 					add(Scenario{Setup: setup, Threads: [][]Op{{x}, {y}, {z}}})
